@@ -59,6 +59,16 @@ add("C13", ENGINE_NET, "fault_enumeration", "deterministic fault enumeration on 
     "FeedOnce runs on the synctest fake clock against a recording witness (stub, or the real witness through the real witnessAdapter, optionally with a competing writer) and a harness log party; per seeded shape all 121 failure patterns and all cancellation points are executed and the recorded calls are checked per attempt.",
     BASE_NOTE, "DESIGN.md 5/C13")
 
+add("C15", ENGINE_NET, "exploration", "deterministic simulation: seeded witness answers x seeded network faults (drop, status, redirect, truncation, stall past the client timeout on the fake clock), oracle on the stub distributor's request log",
+    "DistributeOnce over 1..6 logs with every class of witness answer and distributor answer, witness names that need escaping; a PUT must be sent iff the answer is valid, with the unmodified bytes, to the path naming that log's ID and the witness name; every log is attempted; the error reports the failures.",
+    BASE_NOTE, "DESIGN.md 5/C15")
+add("C16", ENGINE_W, "exploration", "deterministic simulation: Engine-W histories with reads through the real router and the bundled client over simnet, odd IDs, transport faults, reads racing updates under the seeded scheduler",
+    "After every step of seeded histories on both stores, GETs through the registered mux router and through client/http over simnet for known, unknown and syntactically odd IDs, with transport faults on client lookups and, in a concurrent batch, reads racing updates held mid-transaction; 200 + exactly the stored bytes / 404, never another log's checkpoint; client maps to bytes / os.ErrNotExist / error; log list = logs with an accepted update.",
+    BASE_NOTE, "DESIGN.md 5/C16")
+add("C18", ENGINE_NET, "exploration", "deterministic simulation: real SumDB client and feeder against a stub SumDB served from the reference tree over simnet; exhaustive size pairs <= 1200 in the thorough tier; network faults",
+    "Paths requested by the real client are compared with tlog.Tile.Path at a recording stub; the real sumdb.FeedLog builds proofs from tiles served from the reference tree for all pairs 1<=from<to<=1200 (thorough) and sampled pairs to 2^20, each checked by the reference verifier and a real witness; under tile/checkpoint faults nothing the reference verifier rejects may be accepted and the cycle must end.",
+    BASE_NOTE + " x/mod tlog.Tile.Path is the named reference for paths.", "DESIGN.md 5/C18")
+
 NOT_YET = {}
 
 
